@@ -39,6 +39,7 @@ RULES = {
     "fixes.early_return": 6,
     "fixes.early_continue": 7,
     "fixes.breakout_common_code_in_ifs": 8,
+    "fixes.move_before_loop": 9,
 }
 
 B = lambda b: ("B", b)  # noqa
@@ -89,7 +90,17 @@ def swap_domain(mods, p):
     return n <= 1
 
 
-DOMAIN = {"fixes.remove_dead_ifs": no_false_if_with_elif, "fixes.swap_if_else": swap_domain}
+def flat_loops(mods, p):
+    """move_before_loop is modelled on loops whose bodies (and else clauses) hold simple statements only"""
+    for s in M.walk(p):
+        if s[0] in ("while", "for"):
+            if any(x[0] in ("if", "while", "for") for x in s[2] + s[3]):
+                return False
+    return True
+
+
+DOMAIN = {"fixes.remove_dead_ifs": no_false_if_with_elif, "fixes.swap_if_else": swap_domain,
+          "fixes.move_before_loop": flat_loops}
 
 
 def real_rule(mods, name):
@@ -291,7 +302,24 @@ def fam_breakout(tier):
     return [p for p in out if M.well_formed(p)]
 
 
-FAMILIES = {"fixes.breakout_common_code_in_ifs": fam_breakout, "fixes.swap_if_else": fam_swap, "fixes.early_return": fam_early_return,
+def fam_move_before_loop(tier):
+    out = []
+    A = lambda x, e: ("asg", x, e)  # noqa
+    K2, K3 = ("V", ("O", True, 0)), ("V", ("O", True, 1))
+    atoms = [A(0, K2), A(0, K3), A(1, ("X", 0)), A(0, ("X", 1)), A(1, ("T", C1)), ("ev", 1, (0,)), ("ev", 2, ()),
+             ("break",), ("cont",), RET, ("pass",), A(2, ("V", B(True)))]
+    heads = [("while", C1), ("while", ("U", 2, (0,))), ("while", KT), ("for", IK0), ("for", IK2), ("for", ("IU", 1, (0,)))]
+    bodies = [list(c) for n in (1, 2) for c in itertools.product(atoms, repeat=n)]
+    bodies += [[a, b, c] for a in atoms[:6] for b in atoms[:4] for c in (atoms[0], atoms[2], atoms[5])]
+    for (k, h) in heads:
+        for b in (bodies if tier != "quick" else bodies[::2]):
+            out.append([(k, h, b, []), ("ev", 3, (0, 1))])
+    for b in bodies[::7]:
+        out.append([("if", C3, [("while", C1, b, [EV2])], [("for", IK2, b, [])]), ("ev", 3, (0, 1, 2))])
+    return [p for p in out if M.well_formed(p)]
+
+
+FAMILIES = {"fixes.move_before_loop": fam_move_before_loop, "fixes.breakout_common_code_in_ifs": fam_breakout, "fixes.swap_if_else": fam_swap, "fixes.early_return": fam_early_return,
             "fixes.early_continue": fam_early_continue, "fixes.fix_if_return": fam_if_return_assign, "fixes.fix_if_assign": fam_if_return_assign}
 
 
@@ -584,9 +612,38 @@ def _sig_common_stmt_hoisted_over_test(case):
     return False
 
 
+def _may_run_zero_times(s):
+    if s[0] == "while":
+        return tval(s[1]) is not True
+    return not (s[1][0] == "IK" and s[1][1] >= 1)
+
+
+def _plain_assign(x):
+    return x[0] == "asg" and x[2][0] in ("V", "X")
+
+
+def _sig_hoist_zero_iterations(case):
+    """an assignment `x = <constant/variable>` stands at the top level of the body of a loop that may run zero times"""
+    return any(s[0] in ("while", "for") and _may_run_zero_times(s) and any(_plain_assign(x) for x in s[2])
+               for s in M.walk(case["program"]))
+
+
+def _sig_hoist_reassigned(case):
+    """the hoisted variable is assigned again later in the same loop body: from the second iteration on the loop
+    body starts with the later value"""
+    for s in M.walk(case["program"]):
+        if s[0] in ("while", "for"):
+            for i, x in enumerate(s[2]):
+                if _plain_assign(x) and any(y[0] == "asg" and y[1] == x[1] for y in s[2][i + 1:]):
+                    return True
+    return False
+
+
 # keyed by the same sig names as the sweep's predicates (harness/c02_sweep.py): one finding line per root cause
 SIGS: dict = {"bool_coercion_dropped": _sig_bool_coercion_dropped,
-              "common_stmt_hoisted_over_test": _sig_common_stmt_hoisted_over_test}
+              "common_stmt_hoisted_over_test": _sig_common_stmt_hoisted_over_test,
+              "hoist_out_of_zero_iteration_loop": _sig_hoist_zero_iterations,
+              "hoist_reassigned_variable": _sig_hoist_reassigned}
 
 
 def match_finding(kf, case):
